@@ -133,6 +133,13 @@ def runObs (c : Cfg) (g : Glob) : World → St → List (List Nat) → List RxOb
   | w, st, img :: rest =>
     obsOf c g img (parseFrameSt c g w st img).fx :: runObs c g (parseFrameSt c g w st img).w (parseFrameSt c g w st img).st rest
 
+/-- the same with the interface's attributes and the process-wide data possibly different at every frame (address changes are
+    excluded by the theorems' hypotheses: the specification is stated for one station) -/
+def runObsV : World → St → List (Cfg × Glob × List Nat) → List RxObs
+  | _, _, [] => []
+  | w, st, (c, g, img) :: rest =>
+    obsOf c g img (parseFrameSt c g w st img).fx :: runObsV (parseFrameSt c g w st img).w (parseFrameSt c g w st img).st rest
+
 /-- an accepted Discover produces exactly one transmit and it decodes as a Hello -/
 theorem accepted_one_hello (c : Cfg) (g : Glob) (w : World) (st : St) (img : List Nat) (hc : CfgOk c) (hd : isDiscover img = true)
     (hacc : mapperMatches st (LLTD.fRealSrc img) = true) (hw : NoFault w) :
